@@ -98,6 +98,13 @@ ONESYM = {
     'alt-upper': ([-1, -1], [[1, 0.25], [0.25, 0.25]], 1, [-100, -100], [100, None], 1, (0.7, 0.8)),
     'alt-lower': ([1, 1], [[1, 0.25], [0.25, 0.25]], 1, [-100, None], [100, 100], 1, (-0.8, -0.7)),
     'alt-upper-indefinite': ([-1, -0.5], [[1, 0], [0, -1]], 1, [-100, -100], [100, None], 1, (0.5, 0.6)),
+    # an interior line minimum first, then the SECOND conjugate-gradient iteration runs into the symbolic bound: the iteration is
+    # restarted on the remaining free variable (unconstrained minimiser (0.5, 1.0); no boundary refinement)
+    'cg-restart-after-late-bound': ([-3, -1], [[8, -1], [-1, 1.5]], 10, [-100, -100], [100, None], 1, (0.5, 0.9)),
+    'cg-restart-after-late-lower-bound': ([3, 1], [[8, -1], [-1, 1.5]], 10, [-100, None], [100, 100], 1, (-0.9, -0.5)),
+    # no bound active, minimiser outside the ball: the boundary refinement makes consecutive rotations; the radius is the symbol
+    'two-rotations': ([-3, -1], [[8, 1], [1, 3]], None, [-100, -100], [100, 100], 'delta', (0.2, 0.3)),
+    'two-rotations-far-bound': ([-3, -1], [[8, 1], [1, 3]], 0.25, [-100, -100], [100, None], 1, (5, 6)),
 }
 
 
@@ -107,9 +114,9 @@ def body_onesym(E, member):
     gc, Hc, dc, slc, suc, j, (lo, hi) = ONESYM[member]
     g = E.arr([E.const(str(v)) for v in gc], 'f') if E.symbolic else np.array(gc, dtype=float)
     H = E.arr([[E.const(str(v)) for v in row] for row in Hc], 'f') if E.symbolic else np.array(Hc, dtype=float)
-    delta = E.const(str(dc))
     xopt = E.arr([0, 0], 'f') if E.symbolic else np.zeros(2)
-    b = E.real('bound', npy=True, lo=lo, hi=hi)
+    b = E.real('bound', npy=(j != 'delta'), lo=lo, hi=hi)
+    delta = b if j == 'delta' else E.const(str(dc))
     sl = E.arr([E.const(str(v)) if v is not None else b for v in slc], 'f') if E.symbolic else np.array([v if v is not None else b for v in slc], dtype=float)
     su = E.arr([E.const(str(v)) if v is not None else b for v in suc], 'f') if E.symbolic else np.array([v if v is not None else b for v in suc], dtype=float)
     g0 = g.copy()
@@ -159,7 +166,7 @@ FUNCS = ['trust_region.trsbox', 'trust_region.alt_trust_step', 'trust_region.d_w
 def harnesses(tier, seed):
     hs = []
     q = 20000 if tier == 'quick' else 120000
-    nra = lambda: core.Cfg(fork_queries=True, qtimeout_ms=q, portfolio=True, portfolio_s=(45 if tier == 'quick' else 240), portfolio_logic='QF_NRA', ite_minmax=True)
+    nra = lambda: core.Cfg(fork_queries=True, qtimeout_ms=q, nra_first_ms=5000, portfolio=True, portfolio_s=(45 if tier == 'quick' else 240), portfolio_logic='QF_NRA', ite_minmax=True)
     hs.append(Harness("trsbox[n=1,all-symbolic]", 'dfverif.checks.c12', 'body_n1', params={}, cfg=nra(), functions=FUNCS,
                       bounds="n=1; xopt, g, H, box, Delta all symbolic",
                       assumptions=["|g|^2 > 1e-18 or g = 0, Delta >= 1e-9, |g| <= 1e9 (below the code's absolute cut-offs gredsq <= 1e-18 / stplen <= 1e-30 the zero step is returned by design)",
@@ -174,7 +181,7 @@ def harnesses(tier, seed):
                           assumptions=["semi-symbolic: concrete model data, symbolic geometry", "real arithmetic (QF_NRA)"],
                           expect=['n2:step-inside-box'], nproc=None, wall_budget=(150 if tier == 'quick' else 1500), expect_exhaustive=False,
                           max_paths=(400 if tier == 'quick' else 5000)))
-    for mname in ([] if tier == 'quick' else list(ONESYM.keys())):      # (quick: 5 min each and mostly 'unknown' without the portfolio - measured)
+    for mname in (['cg-restart-after-late-bound', 'two-rotations-far-bound'] if tier == 'quick' else list(ONESYM.keys())):      # (the alt-* members: 5 min each and mostly 'unknown' without the portfolio - measured)
         hs.append(Harness("trsbox[n=2,one-symbolic-bound,%s]" % mname, 'dfverif.checks.c12', 'body_onesym', params=dict(member=mname), cfg=nra(), functions=FUNCS,
                           bounds="n=2; g, H, Delta, xopt and three bounds concrete, ONE bound symbolic in a range around the value where the boundary refinement is limited by it",
                           assumptions=["semi-symbolic with one symbol", "real arithmetic (QF_NRA); gnew compared to 1e-9 absolute"],
